@@ -420,7 +420,16 @@ def r2_pairing(program, rep):
     rep.check(not rets, "C18-R2", inst, "__exit__ does not swallow "
               "exceptions", construct="exit return value", node=ex)
     en = program.get(CX + ":Context.__enter__")
-    rep.check("self.stack.append(self)" in unparse(en), "C18-R2", qual(en),
+    EN = Terms(en)
+    SELF_ = ("param", formals(en)[0])
+    pushes = [args for n_, c_, recv, args in method_calls(EN, ["append"])
+              if plain(recv) == ("attr", SELF_, "stack")]
+    inserts = [x for x in method_calls(EN, ["insert", "extend", "appendleft"])
+               if plain(x[2]) == ("attr", SELF_, "stack")]
+    if not pushes and inserts:
+        raise AnalysisError("Context.__enter__ puts the context on the "
+                            "stack other than by append; not analysed")
+    rep.check(pushes == [[SELF_]], "C18-R2", qual(en),
               "entering pushes this context", construct="push", node=en)
     app = program.get(MC + ":MachineController.application")
     A = Terms(app)
@@ -725,6 +734,10 @@ def r5_connection(program, rep):
     ETH = ("call", ("global", "spinn5_local_eth_coord"),
            (("param", ps[1]), ("param", ps[2]), W, H, ("star", R)), ())
     cs = calls_in(gc, "spinn5_local_eth_coord")
+    # (the root chip handed over component by component is the same call)
+    ETH2 = ETH[:2] + (ETH[2][:4] + (("comp", R, 0), ("comp", R, 1)),) + ETH[3:]
+    if len(cs) == 1 and T.term(cs[0]) == ETH2:
+        ETH = ETH2
     split_gc = any(getattr(h_, "_virtual", False) for h_ in ast.walk(gc)
                    if h_ is not gc) or any(
         isinstance(n_, (ast.For, ast.While)) for n_ in ast.walk(gc))
@@ -827,9 +840,17 @@ def r5_connection(program, rep):
     rn_, _, _, KEY, _ = regs[0]
     pn_ = D.cfg.node_containing(probes[0])
     pa = [D.term(a, pn_) for a in probes[0].args[:2]]
-    okd = D.cfg.dominates(rn_, pn_) and ("tuple",) + tuple(pa) == KEY
+    def pair(t):
+        # (a pair written out component by component is that pair)
+        if t[0] == "tuple" and len(t) == 3 and all(
+                c[0] == "comp" and c[2] == i and c[1] == t[1][1]
+                for i, c in enumerate(t[1:])):
+            return t[1][1]
+        return t
+    KEY = pair(KEY)
+    okd = D.cfg.dominates(rn_, pn_) and pair(("tuple",) + tuple(pa)) == KEY
     pops = [x for x in method_calls(D, ("pop", "__delitem__"))
-            if x[2] == CONNS and x[3][:1] == [KEY]]
+            if x[2] == CONNS and len(x[3]) >= 1 and pair(x[3][0]) == KEY]
     okd = okd and not any(D.cfg.reaches(rn_, x[0]) and
                           D.cfg.reaches(x[0], pn_) and
                           x[0].kind != "handler" and
